@@ -848,6 +848,12 @@ class Banana(protocol.Protocol):
 
             elif typebyte == CLOSE:
                 count = header
+                if self.inOpen and not self.discardCount:
+                    # the index tokens of the OPEN sequence that was just
+                    # started have not arrived yet: this CLOSE cannot
+                    # belong to it, and closing an enclosing sequence now
+                    # would let its index phase continue one level up
+                    raise BananaError("CLOSE token in the index phase of an OPEN sequence")
                 if self.discardCount:
                     self.discardCount -= 1
                     if self.debugReceive:
